@@ -163,6 +163,10 @@ func (g *G) extValue(depth int) any {
 		return g.chance(0.5)
 	case 3:
 		if depth < 2 {
+			if g.chance(0.3) {
+				// the payload of an extension is opaque: keys that look like extensions themselves are just keys
+				return M{"k1": g.extValue(depth + 1), "x-owner": g.word(), "items": L{M{"x-note": g.word(), "n": 1}}}
+			}
 			return M{"k1": g.extValue(depth + 1), "k2": L{g.word(), 3, 1.5}}
 		}
 		return g.word()
